@@ -11,6 +11,8 @@ def task_passif(task):
     from inputparser import Parser
     from utils import identifiers
     import program.transformer as T
+    if task.get("fresh_counter"):
+        identifiers._count_unique_var = 0  # the state of a fresh process (command-line run)
     res = {"counter_before": getattr(identifiers, "_count_unique_var", None)}
     try:
         program = Parser().parse_string(task["text"])
